@@ -18,8 +18,30 @@ from_rotation_arc(a,b)*a == b."""
 import core
 from core import Ob
 from gt import FLOAT_VECS
+import props.c02 as c02
 
 PROP = "C12"
+
+# method-level uninterpreted functions for the quaternion callees (vector callees: c02.GUF); see DESIGN 9.6
+QUF = """
+pub mod g_{ln} {{
+    use glam::*; use crate::mk::*;
+    static mut TD: MemoV<{t}> = MemoV::new(0.0);
+    static mut TN: MemoV<{Q}> = MemoV::new(<{Q}>::IDENTITY);
+    static mut TA: MemoV<{Q}> = MemoV::new(<{Q}>::IDENTITY);
+    pub fn dot(a: {Q}, b: {Q}) -> {t} {{ unsafe {{ TD.get(key2(a.kwords(), b.kwords()), crate::vk::any()) }} }}
+    pub fn normalize(a: {Q}) -> {Q} {{ unsafe {{ TN.get(key2(a.kwords(), [0; 4]), mk()) }} }}
+    pub fn from_rotation_arc(a: {V}, b: {V}) -> {Q} {{ unsafe {{ TA.get(key2(a.kwords(), b.kwords()), mk()) }} }}
+}}
+"""
+
+
+def extra(config):
+    return c02.extra(config) + QUF.format(ln="quat", Q="Quat", t="f32", V="Vec3") + QUF.format(ln="dquat", Q="DQuat", t="f64", V="DVec3")
+
+
+def mst(N, ln, w, *fns, more=()):
+    return ["sse", "uf_sqrt%d" % w] + list(more) + [("glam::%s::%s" % (N, f_), "crate::g_%s::%s" % (ln, f_)) for f_ in fns]
 
 
 def build(config, tier):
@@ -42,20 +64,32 @@ def build(config, tier):
         if n in (2, 3):
             body = ("let a = mk::<{N}>(); let b = mk::<{N}>(); let d: {t} = vk::any(); let diff = b - a; let len = diff.length(); let r = a.move_towards(b, d);\n"
                     "    check!(if len <= d || len <= 1e-4 {{ __verif::leq{w}x{n}(r.to_array(), b.to_array()) }} else {{ __verif::leq{w}x{n}(r.to_array(), (a + diff / len * d).to_array()) }}, \"move_towards\");").format(N=N, t=t, w=w, n=n)
-            obs.append(Ob("%s_move_towards" % pre, PROP, body, fn="%s::move_towards" % N, kind="lemma", solver="cvc5", stubs=["sse", "uf_sqrt%d" % w], cls="control", tier=tr,
-                          desc="%s::move_towards returns the target itself IFF len <= d || len <= 1e-4, else self + (rhs-self)/len*d" % N))
-        body = ("let a = mk::<{N}>(); let lo: {t} = vk::any(); let hi: {t} = vk::any(); let l2 = a.length_squared(); let s = {sq}(l2);\n"
-                "    {{ let r = a.clamp_length(lo, hi); check!(if l2 < lo * lo {{ __verif::leq{w}x{n}(r.to_array(), (lo * (a / s)).to_array()) }} else if l2 > hi * hi {{ __verif::leq{w}x{n}(r.to_array(), (hi * (a / s)).to_array()) }} else {{ __verif::leq{w}x{n}(r.to_array(), a.to_array()) }}, \"clamp_length\"); }}\n"
-                "    {{ let r = a.clamp_length_max(hi); check!(if l2 > hi * hi {{ __verif::leq{w}x{n}(r.to_array(), (hi * (a / s)).to_array()) }} else {{ __verif::leq{w}x{n}(r.to_array(), a.to_array()) }}, \"clamp_length_max\"); }}\n"
-                "    {{ let r = a.clamp_length_min(lo); check!(if l2 < lo * lo {{ __verif::leq{w}x{n}(r.to_array(), (lo * (a / s)).to_array()) }} else {{ __verif::leq{w}x{n}(r.to_array(), a.to_array()) }}, \"clamp_length_min\"); }}").format(N=N, t=t, w=w, n=n, sq=sq)
-        obs.append(Ob("%s_clamp_length" % pre, PROP, body, fn="%s::clamp_length*" % N, kind="lemma", solver="cvc5", stubs=["sse", "uf_sqrt%d" % w], cls="control", clauses=3, tier=tr,
-                      desc="%s::clamp_length/_max/_min: rescaled to the bound IFF length_sq < min^2 / > max^2, otherwise returned bit-identical" % N))
+            obs.append(Ob("%s_move_towards" % pre, PROP, body, fn="%s::move_towards" % N, kind="lemma", solver="cvc5", stubs=mst(N, ln, w, "length"), cls="control", tier=tr,
+                          desc="%s::move_towards returns the target itself IFF len <= d || len <= 1e-4, else self + (rhs-self)/len*d, len = (rhs-self).length() (modular in length)" % N))
+        hd = "let a = mk::<{N}>(); let lo: {t} = vk::any(); let hi: {t} = vk::any(); let l2 = a.length_squared(); let s = {sq}(l2);\n    "
+        L = "__verif::leq{w}x{n}"
+        for (sfx, txt, dsc) in (
+                ("clamp_length", "let r = a.clamp_length(lo, hi); check!(if l2 < lo * lo {{ " + L + "(r.to_array(), (lo * (a / s)).to_array()) }} else if l2 > hi * hi {{ " + L + "(r.to_array(), (hi * (a / s)).to_array()) }} else {{ " + L + "(r.to_array(), a.to_array()) }}, \"clamp_length\");",
+                 "rescaled to min IFF length_sq < min^2, to max IFF length_sq > max^2, otherwise returned unchanged"),
+                ("clamp_length_max", "let r = a.clamp_length_max(hi); check!(if l2 > hi * hi {{ " + L + "(r.to_array(), (hi * (a / s)).to_array()) }} else {{ " + L + "(r.to_array(), a.to_array()) }}, \"clamp_length_max\");",
+                 "rescaled to max IFF length_sq > max^2, otherwise returned unchanged"),
+                ("clamp_length_min", "let r = a.clamp_length_min(lo); check!(if l2 < lo * lo {{ " + L + "(r.to_array(), (lo * (a / s)).to_array()) }} else {{ " + L + "(r.to_array(), a.to_array()) }}, \"clamp_length_min\");",
+                 "rescaled to min IFF length_sq < min^2, otherwise returned unchanged")):
+            obs.append(Ob("%s_%s" % (pre, sfx), PROP, (hd + txt).format(N=N, t=t, w=w, n=n, sq=sq), fn="%s::%s" % (N, sfx), kind="lemma", solver="cvc5", stubs=mst(N, ln, w, "length_squared"), cls="control", tier=tr,
+                          desc="%s::%s: %s; the rescaled value is bound * (v / sqrt(length_sq)) (modular in length_squared, sqrt uninterpreted)" % (N, sfx, dsc)))
         if n == 3:
+            body = ("let a = mk::<{N}>(); let r = a.any_orthogonal_vector().to_array(); let x = a.to_array();\n"
+                    "    check!(if x[0].abs() > x[1].abs() {{ mk::same(<{N}>::from_array(r), <{N}>::new(-x[2], 0.0, x[0])) }} else {{ mk::same(<{N}>::from_array(r), <{N}>::new(0.0, x[2], -x[1])) }}, \"any_orthogonal_vector is (-z, 0, x) or (0, z, -y)\");").format(N=N)
+            obs.append(Ob("%s_any_orthogonal_form" % pre, PROP, body, fn="%s::any_orthogonal_vector" % N, kind="lemma", solver="cadical", stubs=["sse"], cls="bits", tier=tr,
+                          desc="%s::any_orthogonal_vector is bit-for-bit (-z, 0, x) when |x| > |y| and (0, z, -y) otherwise, full domain: its dot product with self is x*(-z) + z*x resp. y*z + z*(-y), exactly 0 for finite products" % N))
+            vc = (lambda vi: "mk::vec3a_of(sp::f32x3(%s))" % vi) if N == "Vec3A" else (lambda vi: "<%s>::from_array(sp::f%dx3(%s))" % (N, w, vi))
+            obs.append(Ob("%s_any_orthogonal_lat" % pre, PROP, "let ai = sp::lat3(8); let a = %s; check!(a.dot(a.any_orthogonal_vector()) == 0.0, \"exactly orthogonal on the lattice\");" % vc("ai"),
+                          fn="%s::any_orthogonal_vector" % N, kind="lemma", solver="cadical", stubs=["sse"], cls="lattice", tier=tr, desc="%s::any_orthogonal_vector: dot(self, result) == 0 exactly on the integer lattice [-8,8]^3" % N))
             body = ("let a = mk::<{N}>(); let r = a.any_orthogonal_vector(); let (x, y) = (a.to_array(), r.to_array());\n"
                     "    vk::assume((x[0] * x[2]).is_finite() && (x[1] * x[2]).is_finite() && x[0].is_finite() && x[1].is_finite() && x[2].is_finite());\n"
                     "    check!(a.dot(r) == 0.0, \"any_orthogonal_vector is exactly orthogonal\");").format(N=N)
-            obs.append(Ob("%s_any_orthogonal" % pre, PROP, body, fn="%s::any_orthogonal_vector" % N, kind="lemma", solver="cvc5", stubs=["sse"], cls="structure", tier=tr,
-                          desc="%s::any_orthogonal_vector: dot(self, result) == 0 exactly whenever the lane products are finite" % N))
+            obs.append(Ob("%s_any_orthogonal" % pre, PROP, body, fn="%s::any_orthogonal_vector" % N, kind="lemma", solver="cvc5", stubs=["sse"], cls="structure", tier="thorough",
+                          desc="%s::any_orthogonal_vector: dot(self, result) == 0 exactly whenever the lane products are finite (full domain)" % N))
     if sse:
         for (t, w) in (("f32", 32), ("f64", 64)):
             body = ("let a: {t} = vk::any(); let b: {t} = vk::any(); let s: {t} = vk::any(); let c: {t} = vk::any(); let d: {t} = vk::any();\n"
@@ -68,23 +102,38 @@ def build(config, tier):
         if not sse and Q != "Quat":
             continue
         eps = "%s::EPSILON" % t
+        ql = Q.lower()
+        qt = "quick" if Q == "Quat" else "thorough"
+        qst = lambda *pairs: ["sse", "uf_sqrt%d" % w, "uf_sin_cos%d" % w] + [("glam::%s::%s" % (T_, f_), "crate::g_%s::%s" % (T_.lower(), f_)) for (T_, f_) in pairs]
         body = ("let a = mk::<{V3}>(); let b = mk::<{V3}>(); let dot = a.dot(b); let one: {t} = 1.0 - 2.0 * {eps}; let q = <{Q}>::from_rotation_arc(a, b);\n"
-                "    check!(if dot > one {{ __verif::leq{w}x4(q.to_array(), <{Q}>::IDENTITY.to_array()) }} else if dot < -one {{ true }} else {{ let c = a.cross(b).to_array(); __verif::leq{w}x4(q.to_array(), <{Q}>::from_xyzw(c[0], c[1], c[2], 1.0 + dot).normalize().to_array()) }}, \"from_rotation_arc branches\");\n"
-                "    let qc = <{Q}>::from_rotation_arc_colinear(a, b); check!(__verif::leq{w}x4(qc.to_array(), (if dot < 0.0 {{ <{Q}>::from_rotation_arc(a, -b) }} else {{ q }}).to_array()), \"colinear aligns with +-b\");").format(
+                "    check!(if dot > one {{ __verif::leq{w}x4(q.to_array(), <{Q}>::IDENTITY.to_array()) }} else if dot < -one {{ true }} else {{ let c = a.cross(b).to_array(); __verif::leq{w}x4(q.to_array(), <{Q}>::from_xyzw(c[0], c[1], c[2], 1.0 + dot).normalize().to_array()) }}, \"from_rotation_arc branches\");").format(
             Q=Q, V3=V3, t=t, w=w, eps=eps)
-        obs.append(Ob("c12_%s_%s_rotation_arc" % (config, Q.lower()), PROP, body, fn="%s::from_rotation_arc(_colinear)" % Q, kind="lemma", solver="cvc5",
-                      stubs=["sse", "uf_sqrt%d" % w, "uf_sin_cos%d" % w], cls="control", clauses=2,
-                      desc="%s::from_rotation_arc: identity IFF dot > 1-2eps, half-turn branch IFF dot < -(1-2eps), else normalize((a x b, 1 + a.b)); _colinear flips b IFF dot < 0" % Q))
+        obs.append(Ob("c12_%s_%s_rotation_arc" % (config, ql), PROP, body, fn="%s::from_rotation_arc" % Q, kind="lemma", solver="cvc5",
+                      stubs=qst((V3, "dot"), (Q, "normalize")), cls="control", tier=qt,
+                      desc="%s::from_rotation_arc: identity IFF dot > 1-2eps, half-turn branch IFF dot < -(1-2eps), else normalize((a x b, 1 + a.b)) (modular in Vec3::dot and normalize)" % Q))
+        body = ("let a = mk::<{V3}>(); let b = mk::<{V3}>(); let dot = a.dot(b); let qc = <{Q}>::from_rotation_arc_colinear(a, b);\n"
+                "    check!(__verif::leq{w}x4(qc.to_array(), (if dot < 0.0 {{ <{Q}>::from_rotation_arc(a, -b) }} else {{ <{Q}>::from_rotation_arc(a, b) }}).to_array()), \"colinear aligns with +-b\");").format(Q=Q, V3=V3, w=w)
+        obs.append(Ob("c12_%s_%s_rotation_arc_colinear" % (config, ql), PROP, body, fn="%s::from_rotation_arc_colinear" % Q, kind="lemma", solver="cvc5",
+                      stubs=qst((V3, "dot"), (Q, "from_rotation_arc")), cls="control", tier=qt,
+                      desc="%s::from_rotation_arc_colinear == from_rotation_arc(a, -b) IFF a.b < 0, else from_rotation_arc(a, b) (modular in dot and from_rotation_arc)" % Q))
         body = ("let a = mk::<{V2}>(); let b = mk::<{V2}>(); let dot = a.dot(b); let one: {t} = 1.0 - 2.0 * {eps}; let q = <{Q}>::from_rotation_arc_2d(a, b).to_array();\n"
                 "    check!(if dot > one {{ q[0] == 0.0 && q[1] == 0.0 && q[2] == 0.0 && q[3] == 1.0 }} else if dot < -one {{ q[0] == 0.0 && q[1] == 0.0 && q[2] == 1.0 && q[3] == 0.0 }} else {{ q[0] == 0.0 && q[1] == 0.0 }}, \"from_rotation_arc_2d branches\");").format(
             Q=Q, V2=V2, t=t, eps=eps)
-        obs.append(Ob("c12_%s_%s_rotation_arc_2d" % (config, Q.lower()), PROP, body, fn="%s::from_rotation_arc_2d" % Q, kind="lemma", solver="cvc5", stubs=["sse", "uf_sqrt%d" % w], cls="control",
+        obs.append(Ob("c12_%s_%s_rotation_arc_2d" % (config, Q.lower()), PROP, body, fn="%s::from_rotation_arc_2d" % Q, kind="lemma", solver="cvc5", stubs=qst((V2, "dot")), cls="control", tier=qt,
                       desc="%s::from_rotation_arc_2d: identity above the threshold, the half turn about z below it, a rotation about z in between" % Q))
         # slerp: branch selection (observable: at dot > 1 - eps the result is the normalized lerp)
-        body = ("let a = mk::<{Q}>(); let b = mk::<{Q}>(); let s: {t} = vk::any(); let d0 = a.dot(b); let e = if d0 < 0.0 {{ -b }} else {{ b }}; let d = if d0 < 0.0 {{ -d0 }} else {{ d0 }};\n"
-                "    vk::assume(d > 1.0 - {eps}); let r = a.slerp(b, s); check!(__verif::leq{w}x4(r.to_array(), (a * (1.0 - s) + e * s).normalize().to_array()), \"slerp falls back to normalized lerp toward the nearer of +-end\");").format(Q=Q, t=t, w=w, eps=eps)
-        obs.append(Ob("c12_%s_%s_slerp_fallback" % (config, Q.lower()), PROP, body, fn="%s::slerp" % Q, kind="lemma", solver="cvc5", stubs=["sse", "uf_sqrt%d" % w, "uf_acos_approx%d" % w, "uf_sin%d" % w], cls="control",
-                      desc="%s::slerp: end is negated IFF dot < 0 (shorter arc) and for |dot| > 1 - eps the result is the normalized lerp" % Q))
+        for (sfx, cond, e, d, what) in (("pos", "!(d0 < 0.0)", "b", "d0", "dot >= 0: toward end"), ("neg", "d0 < 0.0", "(-b)", "(-d0)", "dot < 0: toward -end (shorter arc)")):
+            body = ("let a = mk::<{Q}>(); let b = mk::<{Q}>(); let s: {t} = vk::any(); let d0 = a.dot(b); vk::assume({cond} && {d} > 1.0 - {eps});\n"
+                    "    let r = a.slerp(b, s); check!(__verif::leq{w}x4(r.to_array(), (a * (1.0 - s) + {e} * s).normalize().to_array()), \"slerp falls back to normalized lerp toward the nearer of +-end\");").format(Q=Q, t=t, w=w, eps=eps, cond=cond, e=e, d=d)
+            obs.append(Ob("c12_%s_%s_slerp_fallback_%s" % (config, ql, sfx), PROP, body, fn="%s::slerp" % Q, kind="lemma", solver="cvc5",
+                          stubs=["sse", "uf_sqrt%d" % w, "uf_acos_approx%d" % w, "uf_sin%d" % w, ("glam::%s::dot" % Q, "crate::g_%s::dot" % ql), ("glam::%s::normalize" % Q, "crate::g_%s::normalize" % ql)], cls="control", tier="thorough",
+                          desc="%s::slerp (modular in dot and normalize), %s: for |dot| > 1 - eps the result is the normalized lerp a*(1-s) + (+-end)*s" % (Q, what)))
+        mkq = (lambda vi: "<%s>::from_array(sp::f%dx4(%s))" % (Q, w, vi))
+        body = ("unsafe {{ crate::uf::SQRT{w}_MODE = crate::uf::POW2; }} let ai = sp::lat4(1); vk::assume(sp::norm2(ai) == 1); let neg: bool = vk::any(); let bi = if neg {{ [-ai[0], -ai[1], -ai[2], -ai[3]] }} else {{ ai }};\n"
+                "    let a = {A}; let b = {B}; let k: u8 = vk::any(); vk::assume(k <= 2); let s: {t} = if k == 0 {{ 0.0 }} else if k == 1 {{ 0.5 }} else {{ 1.0 }};\n"
+                "    let r = a.slerp(b, s); let e = if neg {{ -b }} else {{ b }}; check!(__verif::leq{w}x4(r.to_array(), (a * (1.0 - s) + e * s).normalize().to_array()), \"slerp between q and +-q on the lattice\");").format(w=w, t=t, A=mkq("ai"), B=mkq("bi"))
+        obs.append(Ob("c12_%s_%s_slerp_lat" % (config, ql), PROP, body, fn="%s::slerp" % Q, kind="lemma", solver="cadical", stubs=["sse", "uf_sqrt%d" % w, "uf_acos_approx%d" % w, "uf_sin%d" % w], cls="lattice", tier=qt,
+                      desc="%s::slerp between a lattice unit quaternion q and +-q at s in {0, 1/2, 1}: the end is negated IFF dot < 0 and the result is the normalized lerp (sqrt an uninterpreted function with values in {1,2,4})" % Q))
     if sse:
         obs.append(Ob("c12_sse2_canary_lerp_overshoot", PROP,
                       'let a = mk::<Vec3>(); let b = mk::<Vec3>(); vk::assume(a.is_finite() && b.is_finite()); check!(__verif::leq32x3(a.lerp(b, 1.0).to_array(), a.to_array()), "lerp(1) == a");',
@@ -94,9 +143,10 @@ def build(config, tier):
 
 def run(s):
     for cfg in ("sse2", "scalar"):
-        s.run_config(cfg, [], build(cfg, s.tier))
+        s.run_config(cfg, [], build(cfg, s.tier), extra_rust=extra(cfg))
     s.assumptions += [
         "A5: sqrt, sin, acos_approx uninterpreted (shared by code and spec)",
+        "modular lemmas: where a clause is marked 'modular in f', the callee f is replaced by an arbitrary function of the operand bits in BOTH code and spec; f's own clauses are obligations of C02 / C04",
         "the half-turn branch of from_rotation_arc (any_orthonormal_vector + from_axis_angle(PI)) is only identified as taken, its value is not specified here",
         "rotate_towards: see C18 (panic for NaN angle) - its steering semantics are not decided",
     ]
